@@ -424,27 +424,38 @@ def _block_and_index(pm, st):
 
 
 def _fresh_state(pm, st, recv: str) -> Optional[str]:
-    """Is `recv` (a local) bound, earlier in the same block, to the state of an instance created right there
-    (`<manager>.new_instance()`): such a state has never been modified.  Returns a description or None."""
-    blk, i = _block_and_index(pm, st)
-    if blk is None:
-        return None
+    """Is `recv` (a local) bound, on the straight line that leads to `st` (earlier in the same block or in an enclosing
+    block), to the state of an instance created right there (`<manager>.new_instance()`): such a state has never been
+    modified.  Returns a description or None."""
 
-    def last_binding(name, before):
-        for k in range(before - 1, -1, -1):
-            s2 = blk[k]
-            if isinstance(s2, ast.Assign) and any(isinstance(t, ast.Name) and t.id == name for t in s2.targets):
-                return k, s2.value
-            if any(n == name for n, _, _ in name_stores(s2)):
-                return k, None
-        return -1, None
+    def last_binding(name, stmt):
+        """(statement, value) of the nearest binding of `name` that precedes `stmt` on the straight line; value None
+        when the nearest binding is not a plain assignment (or sits inside a compound statement: may or may not run)"""
+        cur = stmt
+        while cur is not None and not isinstance(cur, (ast.FunctionDef, ast.AsyncFunctionDef, ast.Lambda)):
+            blk, i = _block_and_index(pm, cur)
+            if blk is not None:
+                for k in range(i - 1, -1, -1):
+                    s2 = blk[k]
+                    if isinstance(s2, (ast.Assign, ast.AnnAssign)):
+                        tg = s2.targets if isinstance(s2, ast.Assign) else [s2.target]
+                        if any(isinstance(t, ast.Name) and t.id == name for t in tg) and s2.value is not None:
+                            return s2, s2.value
+                    if any(n == name for n, _, _ in name_stores(s2)):
+                        return s2, None
+            cur = pm.get(cur)
+            while cur is not None and not isinstance(cur, (ast.stmt, ast.Lambda)):
+                cur = pm.get(cur)
+            if isinstance(cur, (ast.For, ast.AsyncFor, ast.While)) and any(n == name for n, _, _ in name_stores(cur)):
+                return cur, None          # rebound somewhere in the loop we are in
+        return None, None
 
-    k, v = last_binding(recv, i)
-    if not (isinstance(v, ast.Call) and len(v.args) == 1 and isinstance(v.args[0], ast.Name)):
+    s1, v = last_binding(recv, st)
+    if not (isinstance(v, ast.Call) and len(v.args) == 1 and isinstance(v.args[0], ast.Name) and not v.keywords):
         return None
     inst = v.args[0].id
-    k2, v2 = last_binding(inst, k)
-    if isinstance(v2, ast.Call) and isinstance(v2.func, ast.Attribute) and v2.func.attr == "new_instance":
+    s2, v2 = last_binding(inst, s1)
+    if isinstance(v2, ast.Call) and isinstance(v2.func, ast.Attribute) and v2.func.attr == "new_instance" and not v2.args:
         return f"{recv} = {unparse(v)}; {inst} = {unparse(v2)}"
     return None
 
@@ -798,3 +809,13 @@ R.mutant("benign-incoming-state-early-return", IDENT, sub(
     "        if state.modified:\n            self._modified.add(state)\n", "        if not state.modified:\n            return\n        tracked = self._modified\n        tracked.add(state)\n"), None)
 R.mutant("incoming-state-added-only-when-unmodified", IDENT, sub(
     "        if state.modified:\n            self._modified.add(state)\n", "        if not state.modified:\n            self._modified.add(state)\n"), "C48-R4")
+
+_NEW_INST = "                instance = mapper.class_manager.new_instance()\n\n                dict_ = instance_dict(instance)\n                state = instance_state(instance)\n"
+R.mutant("benign-loader-fresh-state-created-before-nested-block", "orm/loading.py", chain(
+    sub(_NEW_INST, "                manager = mapper.class_manager\n                instance = manager.new_instance()\n                state = instance_state(instance)\n\n                dict_ = instance_dict(instance)\n"),
+    sub("                # attach instance to session.\n                state.session_id = session_id\n",
+        "                # attach instance to session.\n                if session_id is not None:\n                    state.session_id = session_id\n"),
+), None)
+R.mutant("loader-fresh-state-rebound-before-attach", "orm/loading.py", sub(
+    "                # attach instance to session.\n                state.session_id = session_id\n",
+    "                # attach instance to session.\n                if refresh_state is not None:\n                    state = refresh_state\n                state.session_id = session_id\n"), "C48-R5")
